@@ -1,0 +1,61 @@
+//go:build verif
+
+package local
+
+import (
+	"sync/atomic"
+
+	"github.com/mutagen-io/mutagen/pkg/synchronization/core"
+)
+
+// This file is only compiled with the "verif" build tag. verifScanInputs is
+// invoked as the first statement of the endpoint's internal scan method (the
+// scan lock is held) and, if a callback is installed, shows it what is about to
+// be handed to core.Scan: the baseline snapshot, the re-check paths, and the
+// digest cache, together with the endpoint's acceleration flag.
+
+// VerifScanInputs describes the acceleration inputs of one scan.
+type VerifScanInputs struct {
+	// Root is the endpoint's synchronization root.
+	Root string
+	// Baseline is the baseline snapshot (nil for a full scan).
+	Baseline *core.Snapshot
+	// RecheckPaths is a copy of the re-check paths (nil if none were given).
+	RecheckPaths map[string]bool
+	// Cache is the digest cache (treated as immutable by the endpoint).
+	Cache *core.Cache
+	// Accelerate is the endpoint's acceleration flag at the time of the scan.
+	Accelerate bool
+}
+
+// verifScanInputsCallback holds the installed callback (nil if none).
+var verifScanInputsCallback atomic.Pointer[func(VerifScanInputs)]
+
+// VerifSetScanInputsObserver installs f as the observer (nil removes it).
+func VerifSetScanInputsObserver(f func(VerifScanInputs)) {
+	if f == nil {
+		verifScanInputsCallback.Store(nil)
+	} else {
+		verifScanInputsCallback.Store(&f)
+	}
+}
+
+// verifScanInputs reports the inputs of the scan that is about to be performed.
+func (e *endpoint) verifScanInputs(baseline *core.Snapshot, recheckPaths map[string]bool) {
+	if f := verifScanInputsCallback.Load(); f != nil {
+		var recheck map[string]bool
+		if recheckPaths != nil {
+			recheck = make(map[string]bool, len(recheckPaths))
+			for p := range recheckPaths {
+				recheck[p] = true
+			}
+		}
+		(*f)(VerifScanInputs{
+			Root:         e.root,
+			Baseline:     baseline,
+			RecheckPaths: recheck,
+			Cache:        e.cache,
+			Accelerate:   e.accelerate,
+		})
+	}
+}
